@@ -87,6 +87,7 @@ pub fn arb_net(g: XferGen) -> impl Strategy<Value = NetSpec> {
                 drv,
                 time_shift_us: 0,
                 client_move_at_us: None,
+                ipv4: false,
             }
         })
 }
